@@ -241,6 +241,20 @@ func c16decode(c *mon.Ctx, b []byte, cls string) {
 	}
 	zb.SetString(vBE.String())
 	check("SetString", &zb, vBE)
+	zb.SetString("-" + vBE.String())
+	check("SetString(neg)", &zb, new(big.Int).Mod(new(big.Int).Neg(vBE), ref.R))
+	// the same bytes in a slice with spare capacity: a decoder must not write beyond len either
+	sb, sChk := spareBytes(snap)
+	var zs1, zs2 fr.Element
+	zs1.SetBytesLE(sb)
+	zs2.SetBytes(sb)
+	_, _ = new(fr.Element).SetBytesLECanonical(sb)
+	if !sChk() || !bytes.Equal(sb, snap) {
+		c.Fail("input-modified/spare-capacity", "a scalar decoder wrote into (the spare capacity of) the caller's slice", map[string]string{"buf": hx(snap)})
+	}
+	if FrToBig(&zs1).Cmp(new(big.Int).Mod(vLE, ref.R)) != 0 || FrToBig(&zs2).Cmp(new(big.Int).Mod(vBE, ref.R)) != 0 {
+		c.Fail("wrong-value/spare-capacity", "decoding from a slice with spare capacity gives another value", nil)
+	}
 	// ReadScalar: exactly the first 32 bytes, canonical little-endian
 	for _, step := range []int{64, 1, 7} {
 		rd := &errReader{data: b, step: step}
